@@ -19,7 +19,7 @@ def Table.trans (t : Table) (g : Grammar) (s X s' : Nat) : Prop :=
 
 /-- The structural certificate, as a proposition.  `start` is the start state, `aug` the augmented
     production whose completed item accepts. -/
-structure Structural (g : Grammar) (t : Table) (start aug : Nat) : Prop where
+structure Structural (g : Grammar) (t : Table) (start aug sym : Nat) : Prop where
   item_prod : ∀ s p d, t.hasItem s p d → ∃ pr, g.prods[p]? = some pr ∧ d ≤ pr.rhs.length
   start_items : ∀ p d, t.hasItem start p d → d = 0
   no_into_start : ∀ s X, ¬ t.trans g s X start
@@ -28,7 +28,7 @@ structure Structural (g : Grammar) (t : Table) (start aug : Nat) : Prop where
   reduce_item : ∀ s a p len, Action.reduce p len ∈ t.cell s a →
       t.hasItem s p len ∧ ∃ pr, g.prods[p]? = some pr ∧ pr.rhs.length = len
   accept_item : ∀ s a, Action.accept ∈ t.cell s a →
-      ∃ pr, g.prods[aug]? = some pr ∧ pr.rhs = [g.startIdx] ∧ t.hasItem s aug 1
+      ∃ pr, g.prods[aug]? = some pr ∧ pr.rhs = [sym] ∧ t.hasItem s aug 1
   aug_start_only : ∀ s, t.hasItem s aug 0 → s = start
   shift_term : ∀ s a s', Action.shift s' ∈ t.cell s a → a < g.nterms
 
@@ -81,7 +81,7 @@ theorem pathInv_drop (g : Grammar) (t : Table) (start : Nat) (st : List (Nat × 
       intro h; simpa using ih b h.2
 
 /-- Path lemma: an item with dot `d` in the top state means the top `d` entries spell `rhs[0..d)`. -/
-theorem path_lemma (g : Grammar) (t : Table) (start aug : Nat) (hs : Structural g t start aug) :
+theorem path_lemma (g : Grammar) (t : Table) (start aug sym : Nat) (hs : Structural g t start aug sym) :
     ∀ (d : Nat) (st : List (Nat × Tree)) (p : Nat), PathInv g t start st →
       t.hasItem (topOf start st) p d →
       d ≤ st.length ∧ t.hasItem (topOf start (st.drop d)) p 0 ∧
@@ -149,7 +149,7 @@ theorem cinv_init (g : Grammar) (t : Table) (start : Nat) : CInv g t start ⟨[]
   ⟨trivial, rfl⟩
 
 /-- every non-final step preserves the invariant, whatever the lookahead -/
-theorem cstep_preserves (g : Grammar) (t : Table) (start aug : Nat) (hs : Structural g t start aug)
+theorem cstep_preserves (g : Grammar) (t : Table) (start aug sym : Nat) (hs : Structural g t start aug sym)
     (leafOf : Nat → Tree) (nodeOf : Nat → List Tree → Tree) (hd : Decorators leafOf nodeOf)
     (c c' : CCfg) (a : Nat) (hinv : CInv g t start c)
     (hstep : cstepWith g t start leafOf nodeOf c a = .shift c' ∨
@@ -193,7 +193,7 @@ theorem cstep_preserves (g : Grammar) (t : Table) (start aug : Nat) (hs : Struct
             obtain ⟨hitem, pr', hpr', hrl⟩ := hs.reduce_item _ _ _ _ hmem
             have : pr' = pr := by rw [hpr] at hpr'; exact (Option.some.inj hpr').symm
             subst this
-            obtain ⟨_, h0, pr'', hpr'', hvl, _⟩ := path_lemma g t start aug hs len c.stack p hinv.path hitem
+            obtain ⟨_, h0, pr'', hpr'', hvl, _⟩ := path_lemma g t start aug sym hs len c.stack p hinv.path hitem
             have : pr'' = pr' := by rw [hpr] at hpr''; exact (Option.some.inj hpr'').symm
             subst this
             have hfull : pr''.rhs.take len = pr''.rhs := by rw [← hrl]; simp
@@ -217,11 +217,11 @@ theorem cstep_preserves (g : Grammar) (t : Table) (start aug : Nat) (hs : Struct
       split at hstep <;> simp at hstep
 
 /-- an accepted tree is a derivation of exactly the shifted tokens from the start symbol -/
-theorem cstep_accept_sound (g : Grammar) (t : Table) (start aug : Nat) (hs : Structural g t start aug)
+theorem cstep_accept_sound (g : Grammar) (t : Table) (start aug sym : Nat) (hs : Structural g t start aug sym)
     (leafOf : Nat → Tree) (nodeOf : Nat → List Tree → Tree)
     (c : CCfg) (a : Nat) (tr : Tree) (hinv : CInv g t start c)
     (hstep : cstepWith g t start leafOf nodeOf c a = .accept tr) :
-    tr.Valid g g.startIdx ∧ tr.yield = c.shifted.reverse ∧ c.stack.length = 1 := by
+    tr.Valid g sym ∧ tr.yield = c.shifted.reverse ∧ c.stack.length = 1 := by
   unfold cstepWith at hstep
   split at hstep
   · simp at hstep
@@ -239,7 +239,7 @@ theorem cstep_accept_sound (g : Grammar) (t : Table) (start aug : Nat) (hs : Str
       · rename_i s1 tr1 below hstack
         injection hstep with htr; subst htr
         obtain ⟨pr, hpr, hrhs, hitem⟩ := hs.accept_item _ _ hmem
-        obtain ⟨_, h0, pr', hpr', hvl, _⟩ := path_lemma g t start aug hs 1 c.stack aug hinv.path hitem
+        obtain ⟨_, h0, pr', hpr', hvl, _⟩ := path_lemma g t start aug sym hs 1 c.stack aug hinv.path hitem
         have : pr' = pr := by rw [hpr] at hpr'; exact (Option.some.inj hpr').symm
         subst this
         rw [hstack] at h0 hvl
